@@ -200,8 +200,9 @@ class Client(base_client.BaseClient):
         except ValueError:
             raise exceptions.ConnectionError(
                 'Unexpected response from server') from None
-        open_packet = p.packets[0]
-        if open_packet.packet_type != packet.OPEN:
+        open_packet = p.packets[0] if p.packets else None
+        if open_packet is None or open_packet.packet_type != packet.OPEN or \
+                not isinstance(open_packet.data, dict):
             raise exceptions.ConnectionError(
                 'OPEN packet not returned by server')
         self.logger.info(
